@@ -172,4 +172,107 @@ theorem regional_of_global (q : List Int)
 
 end
 
+/-! ### `size` rounds always reach the fixed point (a monotone iteration on `size` flags) -/
+
+theorem countP_le_of_sub : ∀ (l1 l2 : List Bool), l1.length = l2.length →
+    (∀ i, l1.getD i false = true → l2.getD i false = true) → l1.countP id ≤ l2.countP id
+  | [], [], _, _ => Nat.le_refl _
+  | [], _ :: _, h, _ => by simp at h
+  | _ :: _, [], h, _ => by simp at h
+  | a :: t1, b :: t2, hl, hs => by
+    have ht := countP_le_of_sub t1 t2 (by simpa using hl) (fun i hi => by simpa using hs (i + 1) (by simpa using hi))
+    have hh : a = true → b = true := fun ha => by simpa using hs 0 (by simpa using ha)
+    cases a <;> cases b <;> simp_all <;> omega
+
+theorem countP_lt_of_sub_ne : ∀ (l1 l2 : List Bool), l1.length = l2.length →
+    (∀ i, l1.getD i false = true → l2.getD i false = true) → l1 ≠ l2 → l1.countP id < l2.countP id
+  | [], [], _, _, hne => absurd rfl hne
+  | [], _ :: _, h, _, _ => by simp at h
+  | _ :: _, [], h, _, _ => by simp at h
+  | a :: t1, b :: t2, hl, hs, hne => by
+    have hl' : t1.length = t2.length := by simpa using hl
+    have hs' : ∀ i, t1.getD i false = true → t2.getD i false = true :=
+      fun i hi => by simpa using hs (i + 1) (by simpa using hi)
+    have hle := countP_le_of_sub t1 t2 hl' hs'
+    have hh : a = true → b = true := fun ha => by simpa using hs 0 (by simpa using ha)
+    by_cases hab : a = b
+    · subst hab
+      have hne' : t1 ≠ t2 := fun h => hne (by rw [h])
+      have := countP_lt_of_sub_ne t1 t2 hl' hs' hne'
+      cases a <;> simp <;> omega
+    · cases a <;> cases b <;> simp_all <;> omega
+
+theorem iter_succ' {α : Type} (f : α → α) (n : Nat) (x : α) : iter f (n + 1) x = f (iter f n x) := by
+  induction n generalizing x with
+  | zero => rfl
+  | succ m ih =>
+    have e : iter f (m + 1 + 1) x = iter f (m + 1) (f x) := rfl
+    rw [e, ih (f x)]; rfl
+
+section
+variable {A : Img Int} {nb : List (List Int)}
+
+theorem badStep_getD (bad : Array Bool) (i : Nat) (hi : i < shapeSize A.shape)
+    (h : bad.getD i false = true) : (badStep A nb bad).getD i false = true := by
+  unfold badStep
+  rw [getD_map_allPos A.shape _ _ false hi, ravelI_unravelI A.shape i hi, h]; rfl
+
+theorem badStep_size (bad : Array Bool) : (badStep A nb bad).size = shapeSize A.shape := by
+  unfold badStep; exact size_map_allPos _ _
+
+/-- a round that changes something sets at least one more flag -/
+theorem badStep_cnt (bad : Array Bool) (hsz : bad.size = shapeSize A.shape)
+    (hne : badStep A nb bad ≠ bad) : cnt bad < cnt (badStep A nb bad) := by
+  unfold cnt
+  refine countP_lt_of_sub_ne _ _ (by simp [hsz, badStep_size]) ?_ ?_
+  · intro i hi
+    have hi' : bad.getD i false = true := by simpa [Array.getD_eq_getD_getElem?, List.getD_eq_getElem?_getD] using hi
+    have hlt : i < shapeSize A.shape := by
+      rw [← hsz]
+      by_cases hlt : i < bad.size
+      · exact hlt
+      · rw [Array.getD_eq_getD_getElem?, Array.getElem?_eq_none (by omega)] at hi'; cases hi'
+    have := badStep_getD (nb := nb) bad i hlt hi'
+    simpa [Array.getD_eq_getD_getElem?, List.getD_eq_getElem?_getD] using this
+  · intro h; exact hne (Array.toList_inj.mp h.symm)
+
+theorem iter_badStep_fixed_or_cnt (bad0 : Array Bool) (hsz : bad0.size = shapeSize A.shape) (n : Nat) :
+    badStep A nb (iter (badStep A nb) n bad0) = iter (badStep A nb) n bad0 ∨
+      n + 1 ≤ cnt (iter (badStep A nb) (n + 1) bad0) := by
+  induction n with
+  | zero =>
+    by_cases h : badStep A nb bad0 = bad0
+    · exact Or.inl h
+    · right
+      have := badStep_cnt (nb := nb) bad0 hsz h
+      show 1 ≤ cnt (badStep A nb bad0)
+      omega
+  | succ m ih =>
+    rw [iter_succ' (badStep A nb) (m + 1) bad0]
+    by_cases h : badStep A nb (iter (badStep A nb) (m + 1) bad0) = iter (badStep A nb) (m + 1) bad0
+    · exact Or.inl h
+    · right
+      have hlt := badStep_cnt (nb := nb) _ (size_iter_badStep (m + 1) bad0 hsz) h
+      rcases ih with ih | ih
+      · exfalso; apply h
+        rw [iter_succ' (badStep A nb) m bad0, ih, ih]
+      · omega
+
+/-- **`size` rounds reach the fixed point**: one more round changes nothing -/
+theorem regSpecFixed_always (isMin : Bool) : regSpecFixed isMin A nb = true := by
+  have hsz0 : (regBad0 isMin A nb).size = shapeSize A.shape := by unfold regBad0; exact size_map_allPos _ _
+  have key : badStep A nb (regSpecBad isMin A nb) = regSpecBad isMin A nb := by
+    unfold regSpecBad
+    rcases iter_badStep_fixed_or_cnt (nb := nb) (regBad0 isMin A nb) hsz0 A.size with h | h
+    · exact h
+    · exfalso
+      have h1 := cnt_le_size' (iter (badStep A nb) (A.size + 1) (regBad0 isMin A nb))
+      rw [size_iter_badStep _ _ hsz0] at h1
+      have : A.size = shapeSize A.shape := rfl
+      omega
+  unfold regSpecFixed
+  rw [key]; simp
+
+end
+
 end Mahotas.C14
